@@ -7,7 +7,9 @@ import "verif/internal/ref"
 var (
 	NumTexts = []string{"-1", "0", "1", "2", "3", "0.5", "1.5", "0.75", "4.5", "-3", "127", "128", "255", "256",
 		"2147483647", "2147483648", "9007199254740991", "9007199254740992", "9007199254740994",
-		"-9223372036854775808", "1e300"}
+		"-9223372036854775808", "1e300",
+		// dyadic near-multiples: 1+2^-32 and 2^-30 (exact in float64; not a multiple of 1, 0.5, 0.25 or 2, however close the quotient is to an integer)
+		"1.00000000023283064365386962890625", "0.000000000931322574615478515625"}
 	// only where a property quantifies over 64-bit integer texts
 	BigNumTexts = []string{"9007199254740993", "9223372036854775807", "9223372036854775808", "18446744073709551615"}
 	StrTexts    = []string{`""`, `"a"`, `"b"`, `"ab"`, "\"é\"", "\"é\"", "\"\U0001F600\"", "\"\U0001F600\U0001F4A9\U0001D11E\"", "\"\U0001D11E\U0001D11E\U0001D11E\U0001D11E\U0001D11E\"", "\"abcd\"", "\"ab\U0001F600\""}
